@@ -1117,6 +1117,7 @@ where
 
     fn reset(&mut self) {
         self.key = None;
+        self.map.clear();
         self.stage = if self.is_attr_body {
             MapStage::Between
         } else {
